@@ -190,20 +190,14 @@ pub open spec fn payload_start(p: Seq<u8>) -> int {
 pub open spec fn c09_claimed(p: Seq<u8>) -> bool {
     !(hdr_ok(p) && is_ctrl(p) && p.len() >= 12 && !is_req(p[9]) && !resp_len_claimed(p[10]))
 }
-/// KNOWN FINDING D9c (recorded, C10): inputs on which decode_packet panics today - a control response whose
-/// completion code is above 0x05 (CompletionCode::from: unreachable!(); the enum has no variant for such a code).
-/// (D9a/D9b - the length tables' unimplemented!() for commands without a fixed length - are fixed.)
-pub open spec fn decode_known_panic(p: Seq<u8>) -> bool {
-    hdr_ok(p) && is_ctrl(p) && p.len() >= 13 && !is_req(p[9]) && p[11] > 5
-}
-
 /// exact error of the library's decoder, in its order of checks (used only to state C11 "the same error
 /// as decoding that input alone"; C09 itself only demands truthful errors, see C09.truthful)
-pub enum DecErr { Invalid, ShortCtrl, Completion(u8), BadPec, BadLen }
+pub enum DecErr { Invalid, ShortCtrl, UnknownCompletion, Completion(u8), BadPec, BadLen }
 pub open spec fn decode_err(p: Seq<u8>) -> DecErr {
     if !hdr_ok(p) { DecErr::Invalid }
     else if !is_ctrl(p) { DecErr::BadPec }
     else if p.len() < 12 || (!is_req(p[9]) && p.len() < 13) { DecErr::ShortCtrl }
+    else if !is_req(p[9]) && p[11] > 5 { DecErr::UnknownCompletion }   // fix of D9c: not one of the six completion codes
     else if !is_req(p[9]) && p[11] != 0 { DecErr::Completion(p[11]) }
     else if !pec_ok(p) { DecErr::BadPec }
     else { DecErr::BadLen }
